@@ -27,7 +27,18 @@ F = "tdgl.finite_volume.operators:"
 
 def _run(body, mutate, L=None):
     L = L or oc.load_ops(mutate)
-    obls, n = explore(lambda: body(L))
+    from pyvc import instrument as _ins
+
+    def framed():
+        # frame condition of every builder: the result is a function of the arguments - no module-level state is written (an operator remembered across
+        # calls would be keyed by something that does not determine the geometry of a mesh).  A candidate: it counts only with a replayed failing input.
+        st0 = _ins.module_state(L)
+        body(L)
+        st1 = _ins.module_state(L)
+        # containers only (memo tables, registries): names the harness itself rebinds (model modules) are not state of the code under test
+        ch = [k for k in _ins.module_state_changes(st0, st1) if len(st0.get(k, ())) > 1 or len(st1.get(k, ())) > 1]
+        check("C03.builders.result_is_a_function_of_the_arguments.no_module_state_written", z3.BoolVal(not ch), note=f"module-level state changed: {ch}", weak=True)
+    obls, n = explore(framed)
     return dict(obls=obls, paths=n, sources=[L.info()], consistent=sym.consistent())
 
 
